@@ -310,6 +310,23 @@ ROUND10 = {
     "C20": "the setup-before-begin rule of C04 runs here too (a setup that initialises the slot has run before the span evaluates its runtime).",
 }
 
+ROUND11 = {
+    "C02": "an entry of a macro-built collection whose optional value is None is neither enumerated nor the end of the enumeration (rule shared with C19); no step of a map view (AsMap's sval / serde / fmt impls) discards its Result.",
+    "C06": "whether a returned remainder is re-submitted depends only on the processor's outcome, the remainder being non-empty (polarity checked) and the retry budget - not on the channel being open; the provided Channel::is_empty is len() == 0.",
+    "C07": "the flag a blocking flush waits on starts unset.",
+    "C08": "a worker that drives several receivers (emit_otlp) finishes only when every receiver has finished (found defect D23, fixed); block_in_place only on the MultiThread edge of the flavour test; the trigger starts unset; the time left of a blocking wait is timeout minus elapsed, never more.",
+    "C09": "EventBatch::len is bufs.len() - index.",
+    "C10": "EventBatch::len is bufs.len() - index.",
+    "C11": "a name that fails a membership test is not a member of the file set (polarity of every test in is_file_in_set); the real file system's listing yields exactly the entries that are regular files, by path.",
+    "C12": "workers-run-to-completion as C08; the TLS handshake is performed exactly for https endpoints; a request's declared content length is framing prefix plus payload.",
+    "C13": "a property's stream error that the OTLP attribute streamer hands on must not meet an unwrap / expect in the encoders; a metric sample is declined (None) only when it has no numeric point; the running sum accumulates by addition; points are spread over end - start; no streaming step of the OTLP data code or the file writer discards its Result.",
+    "C14": "a metric sample is declined by its encoder (and so exported as a log) only when it has no numeric point.",
+    "C15": "fixed-layout text forms (ids, flags, traceparent, timestamp, level, kind) ignore the caller's width / precision flags (no Formatter::pad, no hand-over of the formatter to a padding Display); the every-fourth-year rule of from_parts is applied only to a non-zero within-century remainder; each of the three `-` separators of a traceparent header is required on its own; the Display impls of the text forms propagate every write's outcome.",
+    "C16": "an empty text fragment facing a hole is stepped over, never a mismatch (found defect D22, fixed); every writer's write_hole_fmt renders the value through the formatter it is given.",
+    "C17": "the level inherited at the start of the lookup walk is the map's default (every definition of the accumulator that reaches the combining step from before the loop is root.min_level).",
+    "C18": "every wrapper / erased bridge of Ctxt forwards open_disabled (wrapper-family rule of C03 run here); ExcludeTraceparentProps hides the id keys exactly when `check` is set and incoming_traceparent sets it exactly when it derived a traceparent; Traceparent::is_valid and ActiveTraceparent::is_parent_of are the conjunctions their comments state.",
+}
+
 for p in props:
     pid = p["id"]
     if pid in CLAIMS and os.path.exists(os.path.join(VERIF, "rules", pid.lower() + ".py")):
@@ -320,6 +337,8 @@ for p in props:
             text = text.rstrip() + " Round 9: " + ROUND9[pid]
         if pid in ROUND10:
             text = text.rstrip() + " Round 10: " + ROUND10[pid]
+        if pid in ROUND11:
+            text = text.rstrip() + " Round 11: " + ROUND11[pid]
         checks.append({
             "property_id": pid,
             "quick_cmd": "./check %s --tier quick" % pid,
